@@ -9,7 +9,7 @@
 # self-test: every stored seeded violation of this property is applied to a
 # scratch worktree of /repo's HEAD (outside /repo and /verif, removed
 # afterwards) and the check must report it; every stored behaviour-preserving
-# refactoring written for this property (benign/<id>r/, benign/hand/) is applied
+# refactoring written for this property (benign/<id>r/, benign/<id>s/, benign/hand/) is applied
 # the same way and the check must stay silent. A self-test miss or false alarm
 # means the checker regressed: exit 2, not a verdict about /repo.
 set -u
@@ -64,9 +64,15 @@ done
 # ---- thorough: behaviour-preserving edits written for this property must leave it silent
 bresults="[]"
 alarm=0
-for d in "$VERIF"/benign/"$PROP"r/*.diff "$VERIF"/benign/hand/*.diff; do
+for d in "$VERIF"/benign/"$PROP"r/*.diff "$VERIF"/benign/"$PROP"s/*.diff "$VERIF"/benign/hand/*.diff; do
   [ -f "$d" ] || continue
   bid="$(basename "$(dirname "$d")")/$(basename "$d" .diff)"
+  # patches this property's check is known not to see through (DESIGN.md §7): listed, not run
+  if grep -qx "$bid $PROP" "$VERIF/scripts/benign_expected.txt" 2>/dev/null; then
+    bresults=$(python3 -c "import json,sys;r=json.loads(sys.argv[1]);r.append({'patch':sys.argv[2],'status':'known limitation of this check (DESIGN.md section 7): not run'});print(json.dumps(r))" "$bresults" "$bid")
+    echo "  self-test benign $bid: known limitation, not run"
+    continue
+  fi
   wt="$SCR/b_$(echo "$bid" | tr / _)"; out="$SCR/bout_$(echo "$bid" | tr / _)"; mkdir -p "$out"
   git -C "$REPO" worktree add -q --detach "$wt" HEAD 2>/dev/null || continue
   if git -C "$wt" apply "$d" 2>/dev/null; then
